@@ -81,7 +81,14 @@ Definition observed (c : tcase) : list event * outcome :=
   end.
 
 Definition agrees_S (c : tcase) : bool := obs_eqb (observed c) (model_S c).
-Definition agrees_I (c : tcase) : bool := obs_eqb (observed c) (model_I c).
+(* against I a crash is a prediction: the model executing an unpatched nil placeholder (or running out of fuel)
+   corresponds to a Go panic escaping goja (observed as ([], OStuck)) *)
+Definition both_stuck (a b : outcome) : bool :=
+  match a, b with OStuck, OStuck => true | _, _ => false end.
+Definition obs_eqb_I (a b : list event * outcome) : bool :=
+  trace_eqb (fst a) (fst b) && (outcome_eqb (snd a) (snd b) || both_stuck (snd a) (snd b)).
+Definition agrees_I (c : tcase) : bool :=
+  match c with CFail => false | _ => obs_eqb_I (observed c) (model_I c) end.
 
 Fixpoint mismatch_from (f : tcase -> bool) (i : N) (cs : list tcase) : list N :=
   match cs with
